@@ -295,6 +295,20 @@ def run(pid):
         o = keyed[k]
         ops = quiesce_and_probe(norm_ops(o["path"]), o["cs"], 4)
         scenarios.append(scenario(ops))
+    if pid == "C12":
+        # two Sign calls on one topic that are truly concurrent: the first is started and held inside the construction of its first
+        # synchroniser (where the code checks for a session on the topic), the second runs up to some stage, then the first is released:
+        # exactly one session may exist on the topic
+        for topic in ("T1", "T2"):
+            for upto in ([], ["s1"], ["s1", "s2"]):
+                ops = [op("call", c=1, kind="sg", topic=topic, label="held", expect="none"),
+                       op("call", c=2, kind="sg", topic=topic, expect="s1")]
+                nxt = {"s1": "s2", "s2": "be"}
+                for st in upto:
+                    ops.append(op("step", c=2, label=st, expect=nxt[st]))
+                ops.append(op("release", c=1, expect="ret"))
+                ops.append(op("cancel", c=2, expect="ret"))
+                scenarios.append(scenario(ops))
     log("orch %s: %r; %d maximal histories, %d executed (+quiescence and probes)" % (pid, r, total_hist, len(maximal)))
     ev.append(dict(config="histories", constants={k: (v if k not in ("Plans", "Injects") else len(v)) for k, v in consts.items()},
                    distinct_states=r.distinct, states_generated=r.generated, maximal_histories=total_hist, executed=len(maximal)))
